@@ -142,6 +142,36 @@ func campaignC16(p *Parser, req *Request, resp *Response) {
 			resp.stat("unclaimed_divergence_statistics_twin", 1)
 		}
 	}
+	if !ticksKnown && !p.Has["Statistics"] && req.TwinParser != "" {
+		// -optimize-parser variants cannot report their expression count. The same
+		// grammar generated without the flag can: when it produces the same history
+		// (same blocks, same order, same actions at the same offsets with the same
+		// text) and the same errors, its tick stamps are the clock of this run.
+		if tp := Lookup(req.TwinParser); tp != nil {
+			cs := call
+			cs.Opts.Stats = true
+			Rt := tp.Solo(&cs, req.Pool, int64(ref+2)*C)
+			resp.Runs++
+			same := !Rt.Aborted && !Rt.Overflow && len(Rt.Events) == len(R.Events) && Rt.ValueNil == R.ValueNil
+			for i := 0; same && i < len(R.Events); i++ {
+				same = Rt.Events[i].Key() == R.Events[i].Key()
+			}
+			if okE, _ := sameStrings(errMsgs(Rt), errMsgs(R)); !okE {
+				same = false
+			}
+			if same {
+				ticksKnown = true
+				N = Rt.ExprCnt
+				for i := range Rt.Events {
+					tickOf[i] = Rt.Events[i].Tick
+				}
+				resp.stat("ticks_from_unoptimized_twin", 1)
+			} else {
+				// whether the two template variants agree is C10's subject, not ours
+				resp.stat("unclaimed_divergence_unoptimized_twin", 1)
+			}
+		}
+	}
 	if refExhausted {
 		resp.stat("reference_exhausted_budget", 1)
 	}
